@@ -122,6 +122,7 @@ def roundtrip(sym, shape, opts, focus, history=False):
         ti, objs = build(sym, shape, opts, focus)
         written = ti.dumps()
     except (ValueError, TypeError):
+        sym.cover("refused")          # e.g. a half media numbering: the library does not agree to write it
         return
     sym.cover("written")
     if history:
